@@ -25,3 +25,4 @@ def run(ck):
     dtype.notation_parameter(ck, "C12.R4")
     sizes.resize_rules(ck, {"refresh": "C02.R5"})
     fresh.no_class_state_writes(ck, "C20.R7")
+    fresh.no_hidden_state(ck, "C20.R8")                  # results depend on the documented state only (no caches / memos)
